@@ -699,7 +699,7 @@ class Lite(object):
                         nm = "Exception"
                     out.append((nm, n, "raise"))
                 elif isinstance(n, ast.Assert):
-                    if f.qname not in self.internal_asserts and not (".<locals>." in f.qname and f.qname.rsplit(".<locals>.", 1)[0] + ".<locals>.*" in self.internal_asserts):
+                    if f.qname not in self.internal_asserts:
                         out.append(("AssertionError", n, "assert"))
                 elif isinstance(n, ast.Call):
                     fn = n.func
